@@ -49,7 +49,8 @@ META = {
     "assumptions": ["identity middleware = `return await next_call(request)`; header-edit middleware sets exactly one header on the relayed response",
                     "inner applications come from a recipe list (every baize response class, multi-chunk streams, several cookies, unknown status, "
                     "a PEP 3333 start_response restart, an application that raises)"],
-    "bounds": {"quick": {"depth_max": 2, "text_chars": 2, "sizes": [0, 1, 65535, 65536, 65537]}, "thorough": {"depth_max": 3, "text_chars": 3, "sizes": [0, 1, 65535, 65536, 65537, 200000]}},
+    "bounds": {"quick": {"depth_max": 3, "text_chars": 3, "sizes": [0, 1, 65535, 65536, 65537, 200000]},
+               "thorough": {"depth_max": 3, "text_chars": 4, "sizes": [0, 1, 65535, 65536, 65537, 131072, 131073, 200000, 1100000]}},
     "outside": ["middlewares that read the request body", "zero-copy send extension through the relay", "other inner applications"],
     "expect_kinds": {"all": ["transparent"]},
 }
